@@ -39,7 +39,7 @@ def from_element(H):
     fake_tree.install(H)
     kind = H.case("gradient", ("linear", "radial"))
     units = H.case("units", (None, "userSpaceOnUse", "objectBoundingBox", "bogus"))
-    form = H.case("values", ("number", "percent", "defaults"))
+    form = H.case("values", ("number", "percent", "percent_out_of_range", "defaults"))
     extra = H.case("extra_attribute", (False, True))
     vb = Rect(H.real("vx"), H.real("vy"), H.real("vw"), H.real("vh"))
     H.assume(And(vb.w > 0, vb.h > 0))
@@ -47,6 +47,10 @@ def from_element(H):
     rw, rh = (vb.w, vb.h) if user else (1, 1)
     names = ("x1", "y1", "x2", "y2") if kind == "linear" else ("cx", "cy", "r", "fx", "fy", "fr")
     raw = {"x1": 12.5, "y1": 20.0, "x2": 75.0, "y2": 40.0, "cx": 30.0, "cy": 60.0, "r": 45.0, "fx": 35.0, "fy": 55.0, "fr": 5.0}
+    if form == "percent_out_of_range":
+        # a gradient vector may start before and end after the reference box: -50% .. 150% are ordinary values (only stop OFFSETS clamp)
+        raw = {"x1": -50.0, "y1": -20.0, "x2": 150.0, "y2": 120.0, "cx": 120.0, "cy": -10.0, "r": 150.0, "fx": 130.0, "fy": -25.0, "fr": 110.0}
+        form = "percent"
     attrib = {"id": "g1"}
     if units is not None:
         attrib["gradientUnits"] = units
